@@ -1314,7 +1314,7 @@ func Run(r *core.Run) {
 	total := 0
 	walks := r.Pick(400, 800)
 	procs := r.Pick(2, 3)
-	maxRounds := r.Pick(6, 8) // thorough: 3 processes per generator, rounds of up to 1600 walks, 8 configurations per tree
+	maxRounds := r.Pick(6, 8)                       // thorough: 3 processes per generator, rounds of up to 1600 walks, 8 configurations per tree
 	if v := os.Getenv("VERIF_C15_WALKS"); v != "" { // developer knobs
 		fmt.Sscan(v, &walks)
 	}
